@@ -13,6 +13,7 @@ import StVerif.Lemmas.KernelLoopsUtf8
 import StVerif.Lemmas.KernelLoopsMisc
 import StVerif.Lemmas.KernelLoopsLatin1
 import StVerif.Lemmas.KernelLoopsValidate
+import StVerif.Lemmas.KernelLoopsCleanup
 
 namespace StVerif.Props.C03
 open StVerif StVerif.Utf StVerif.Generated StVerif.Lemmas.Utf
@@ -235,5 +236,14 @@ theorem translated_two_pass_safe_utf32_utf8 (mem : List Nat) (hu : ∀ u ∈ mem
 
 example : Kernels.utf8_convert_from_utf16 [0x41, 0xD83D, 0xDE00, 0xDC00] 5 0 4 2 = .ok ((2 : Int), [0x41, 0xF0, 0x9F, 0x98, 0x80]) := by
   decide
+
+open StVerif.KernelBridge in
+/-- `cleanup_utf8` (the repairer behind `substitute_invalid` for `ST::string`) as translated from the C++ on every run:
+    both passes complete without a load outside the source, the sizing pass (null output) returns exactly the number of
+    units the filling pass stores, and what is stored is the model's `cleanupUtf8` - for every source below 2^62 bytes -/
+theorem translated_repairer_is_model (mem : List Nat) (fuel : Nat) (hf : mem.length < fuel) (hl : 3 * mem.length < 2 ^ 64) :
+    Kernels.cleanup_utf8 mem fuel false 0 mem.length = .ok ((cleanupUtf8 mem).length, cleanupUtf8 mem) ∧
+    Kernels.cleanup_utf8 mem fuel true 0 mem.length = .ok ((cleanupUtf8 mem).length, []) :=
+  cleanup_utf8_eq mem fuel hf hl
 
 end StVerif.Props.C03
